@@ -87,12 +87,18 @@ pub fn check_infix(chrs: &Vec<char>) -> (Infix, usize) {
         }
         else if c1 == '(' {
             // Skip past text within parentheses: (...)
+            // Parentheses can be nested: not(f($X) = $Y)
+            let mut depth = 1;
             let mut j = i + 1;
             while j < length {
                 let cx = chrs[j];
-                if cx == ')' {
-                    i = j;
-                    break;
+                if cx == '(' { depth += 1; }
+                else if cx == ')' {
+                    depth -= 1;
+                    if depth == 0 {
+                        i = j;
+                        break;
+                    }
                 }
                 j += 1;
             }
@@ -198,11 +204,17 @@ pub fn check_arithmetic_infix(chrs: &Vec<char>) -> (Infix, usize) {
         }
         else if c1 == '(' {
             // Skip past text within parentheses: (...)
+            // Parentheses can be nested: f(g($X), $Y) + 1
+            let mut depth = 1;
             let mut j = i + 1;
             while j < length {
                 let cx = chrs[j];
-                if cx == ')' {
-                    i = j; break;
+                if cx == '(' { depth += 1; }
+                else if cx == ')' {
+                    depth -= 1;
+                    if depth == 0 {
+                        i = j; break;
+                    }
                 }
                 j += 1;
             }
